@@ -75,6 +75,72 @@ func main() {
 		os.Exit(runDump(pos[0], *repo, pos))
 	case "controls":
 		os.Exit(runControlsCmd(*verif))
+	case "stress":
+		// stress <prop> <n>: the property's obligations decided n times in one process on the same
+		// loaded program; any run whose set of non-discharged obligations differs from the first is
+		// printed (a verdict must not depend on map iteration order)
+		if len(pos) != 2 {
+			usage()
+		}
+		n, _ := strconv.Atoi(pos[1])
+		w, err := Load(*repo, libPkgs, 10)
+		if err != nil {
+			fmt.Println(err)
+			os.Exit(2)
+		}
+		a := &Analysis{W: w, Tier: "quick"}
+		a.Eff = NewEffects(w)
+		a.Eff.Run()
+		var first string
+		bad := 0
+		for i := 0; i < n; i++ {
+			reg := NewRegistry(pos[0])
+			func() {
+				defer func() {
+					if rec := recover(); rec != nil {
+						reg.Undecided("analyser", "panic", "", fmt.Sprint(rec))
+					}
+				}()
+				propFuncs[pos[0]](a, reg)
+				runDeps(pos[0], a, reg)
+			}()
+			var sig []string
+			for _, o := range reg.Obs {
+				if o.st != Discharged {
+					sig = append(sig, o.Rule+" "+o.Construct+": "+clip(o.Detail, 160))
+				}
+			}
+			sort.Strings(sig)
+			cur := fmt.Sprintf("%d obligations; not discharged: %s", len(reg.Obs), strings.Join(sig, " || "))
+			if i == 0 {
+				first = cur
+				fmt.Println("run 0:", cur)
+			} else if cur != first {
+				bad++
+				fmt.Printf("run %d DIFFERS: %s\n", i, cur)
+			}
+		}
+		if watchedX != nil {
+			cnt := map[Tri]int{}
+			for i := 0; i < 200000; i++ {
+				watchedX.signCache = map[string]Tri{}
+				t := watchedX.EvalCond(watchedC, watchedA)
+				cnt[t]++
+				if t == True && cnt[t] == 1 {
+					signWatchOn = true
+					watchedX.signCache = map[string]Tri{}
+					t2 := watchedX.EvalCond(watchedC, watchedA)
+					signWatchOn = false
+					fmt.Println("REPLAY with trace gave", t2)
+				}
+			}
+			fmt.Println("WATCHED query results over 200000 evaluations:", cnt)
+		}
+		fmt.Printf("stress %s: %d runs, %d differ from the first\n", pos[0], n, bad)
+		if bad > 0 {
+			os.Exit(1)
+		}
+		os.Exit(0)
 	default:
 		usage()
 	}
